@@ -144,6 +144,40 @@ func TestC13(t *testing.T) {
 			c.Label("ipv4_header_length_left_to_library")
 			gv.kind += "(ihl<options)"
 		}
+		if gv.family == "packet" && c13RawICMPv6(rt, v) {
+			c.Label("icmpv6_payload_as_raw_buffer")
+			gv.kind += "(icmpv6 as buffer)"
+		}
+		// In half of the cases the children are encoded on their own first (they are completed values too:
+		// a caller may log or checksum a payload before embedding it), and again after the history: sizing and
+		// embedding a child, however often, does not change what the child itself encodes to.
+		type kidEnc struct {
+			k   util.Message
+			enc []byte
+		}
+		var kids []kidEnc
+		if rapid.Bool().Draw(rt, "children_encoded_first") {
+			var walk func(m util.Message, depth int)
+			walk = func(m util.Message, depth int) {
+				_, segs, ok := layoutOf(m)
+				if !ok || depth > 3 {
+					return
+				}
+				for _, sg := range segs {
+					if sg.kid == nil || isNilMsg(sg.kid) {
+						continue
+					}
+					if b, fr, _ := safeMarshal(sg.kid); fr == "" {
+						kids = append(kids, kidEnc{sg.kid, append([]byte{}, b...)})
+					}
+					walk(sg.kid, depth+1)
+				}
+			}
+			walk(v, 0)
+			if len(kids) > 0 {
+				c.Label("children_encoded_before_and_after")
+			}
+		}
 		nops := rapid.IntRange(2, 12).Draw(rt, "nops")
 		var hist []string
 		var firstEnc, lastEnc []byte
@@ -267,6 +301,12 @@ func TestC13(t *testing.T) {
 				return
 			}
 		}
+		for i, k := range kids {
+			if b, fr, msg := safeMarshal(k.k); fr != "" || !bytes.Equal(b, k.enc) {
+				c.Report(rt, fmt.Sprintf("C13|%T|child-disturbed|%T", v, k.k), fmt.Sprintf("%s: child %d (%T) encoded to %s before its parent was sized and encoded, and to %s %s %s afterwards; history %v", gv.kind, i, k.k, hx(k.enc), hx(b), fr, msg, hist), rep())
+				return
+			}
+		}
 		if (encs >= 2 && lenBetween) || viaContainer {
 			c.NonTrivial(ev.Hash64([]byte(gv.kind), firstEnc, []byte(fmt.Sprint(hist))))
 		}
@@ -284,6 +324,34 @@ func TestC13(t *testing.T) {
 // the second call - as long as no later result does; results are compared
 // directly.)
 func c13View(v util.Message) string { return obs.Dump(v, obs.Opts{ExportedOnly: true}) }
+
+// c13RawICMPv6: an IPv6 packet whose ICMPv6 payload the caller holds as raw bytes
+// (a util.Buffer, checksum field still zero) instead of a decoded *ICMP - what a
+// caller forwarding or crafting neighbour-discovery messages has in hand.
+func c13RawICMPv6(rt *rapid.T, v util.Message) bool {
+	var ip *protocol.IPv6
+	switch x := v.(type) {
+	case *protocol.IPv6:
+		ip = x
+	case *protocol.Ethernet:
+		ip, _ = x.Data.(*protocol.IPv6)
+	}
+	if ip == nil {
+		return false
+	}
+	ic, ok := ip.Data.(*protocol.ICMP)
+	if !ok || !rapid.Bool().Draw(rt, "icmpv6_as_buffer") {
+		return false
+	}
+	b, fr, _ := safeMarshal(ic)
+	if fr != "" || len(b) < 4 {
+		return false
+	}
+	raw := append([]byte{}, b...)
+	raw[2], raw[3] = 0, 0
+	ip.Data = util.NewBuffer(raw)
+	return true
+}
 
 // c13LooseIHL finds an IPv4 header with options inside v and, in half of the
 // cases, lowers its IHL below what the options need (0, as NewIPv4 leaves it, or
